@@ -8,6 +8,7 @@
   queue together with its per-validator index — the latter in every state of every history (`reach_ixn`).
 -/
 import AllianceProofs
+import Generated.Arith
 namespace Alliance
 namespace C18
 open Dec
@@ -86,6 +87,68 @@ example : IXN (default : World) :=
     too (`ReachUG`) -/
 theorem index_agreement_survives_restarts (w0 w : World) (h0 : IXN w0) (hr : ReachUG w0 w) : IXN w :=
   reach_ixn_with_restarts w0 w h0 hr
+
+
+/-- THE RESTART THEOREM: in a state whose record stores are sorted and keyed by their own fields (`Stores`, `RK`), whose
+    unbonding queue and index agree with no empty bucket (`IXN`) and whose redelegation stores agree (`RX`),
+    export → wipe → import brings back assets, validator infos, delegations, snapshots, redelegation records, the unbonding
+    queue with its index and the parameters EXACTLY, touches nothing outside the module's genesis (bank, supply, native
+    staking, clock), leaves the redelegation stores in agreement and drops the rebalance flag -/
+theorem restart_restores_the_module (w w' : World) (hok : RestartOK w) (h : reimport w = (.ok (), w')) :
+    SameModuleState w w' ∧ RX w' ∧ w'.flag = false := restart_restores w w' hok h
+
+/-- those hypotheses hold in EVERY state of EVERY history from the empty module store: successful operations on any
+    response tape, failed transactions, environment steps that leave the module's stores alone, earlier restarts.
+    (`Stores` and `RK` are kept by every keeper function whatever its outcome — KeepStores.lean / KeepRK.lean, one
+    generated lemma per function; `IXN` and `RX` are INV-I and INV-R) -/
+theorem restart_hypotheses_hold_in_every_history (w0 w : World) (hr : ReachG (clearModuleStore w0) w) : RestartOK w :=
+  reach_restart_ok _ _ (restart_ok_empty w0) hr
+
+theorem every_restart_restores_the_module (w0 w w' : World) (hr : ReachG (clearModuleStore w0) w)
+    (h : reimport w = (.ok (), w')) : SameModuleState w w' ∧ RX w' ∧ w'.flag = false :=
+  every_restart_restores w0 w w' hr h
+
+/-- the property's first clause: a second export is identical to the first, after every history -/
+theorem second_export_is_identical (w0 w w' : World) (hr : ReachG (clearModuleStore w0) w)
+    (h : reimport w = (.ok (), w')) : exportGenesis w' = exportGenesis w := every_second_export_identical w0 w w' hr h
+
+/-- the property's second clause, where it holds outright: with no redelegation pending and no rebalance queued a restart is
+    the IDENTITY on the whole state, so every continuation — results, errors, payouts, slashing effects, query answers — is
+    the same on the original and on the re-imported state.  With a redelegation pending or the flag set it is not (D12,
+    D11: `redelegation_queued_twice`, `flag_lost` above) -/
+theorem restart_is_the_identity_without_pending_redelegations (w w' : World) (hok : RestartOK w) (hf : w.flag = false)
+    (h1 : w.redels = []) (h2 : w.redelQueue = []) (h3 : w.redelIndex = []) (h : reimport w = (.ok (), w')) : w' = w :=
+  restart_is_identity w w' hok hf h1 h2 h3 h
+
+theorem continuations_agree_after_such_a_restart (w w' : World) (hok : RestartOK w) (hf : w.flag = false)
+    (h1 : w.redels = []) (h2 : w.redelQueue = []) (h3 : w.redelIndex = []) (h : reimport w = (.ok (), w'))
+    (ops : List Op) : run w' ops = run w ops := restart_then_run_eq w w' hok hf h1 h2 h3 h ops
+
+/-- the store-by-store statements behind it -/
+theorem validators_survive_restart (w w' : World) (h : reimport w = (.ok (), w'))
+    (hs : AL.SortedBy natKeyOrder w.vals) : w'.vals = w.vals := reimport_restores_validators w w' h hs
+theorem snapshots_survive_restart (w w' : World) (h : reimport w = (.ok (), w'))
+    (hs : AL.SortedBy delKeyOrder w.snaps) : w'.snaps = w.snaps := reimport_restores_snapshots w w' h hs
+theorem redelegation_records_survive_restart (w w' : World) (h : reimport w = (.ok (), w'))
+    (hs : AL.SortedBy redelKeyOrder w.redels) (hk : RK w) : w'.redels = w.redels :=
+  reimport_restores_redelegation_records w w' h hs hk
+theorem outside_untouched_params_restored (w w' : World) (h : reimport w = (.ok (), w')) :
+    w'.bank = w.bank ∧ w'.supply = w.supply ∧ w'.staking = w.staking ∧ w'.time = w.time ∧ w'.height = w.height ∧
+    w'.oracle = w.oracle ∧ w'.params = w.params ∧ w'.flag = false := reimport_outside_and_params w w' h
+
+/-- non-vacuity: the empty module store meets the hypotheses, and the pending-redelegation state above does too — it is the
+    derived stores, not a failed hypothesis, that make its round trip differ -/
+example : RestartOK (clearModuleStore default) := restart_ok_empty default
+example : RestartOK wRedel := by decide
+
+/-- fact (regenerated from x/alliance/keeper/genesis.go on every run): a fingerprint of `InitGenesis`, `ExportGenesis` and
+    their helpers — the text the model's `initGenesis` / `exportGenesis` (Genesis.lean) were written from. The import bugs
+    the seeded rounds kept finding here (index rebuilt from the first entry's validator, destination parsed from the source
+    field) change this text: the `rfl` breaks without a restart having to be sampled -/
+theorem genesis_code_as_modelled : Generated.genesisFunctions = [
+  ("InitGenesis", "4a8624aa49d041e7"),
+  ("ExportGenesis", "20516dd522599b40")
+] := rfl
 
 end C18
 end Alliance
